@@ -329,3 +329,37 @@ def check_callbacks(kinds: List[int]) -> bool:
         lbase.LOGGER = old
     return ran == list(range(len(kinds))) and f.result(timeout=0) == 5 and \
         len(logged) == sum(1 for k in kinds if k)
+
+
+def check_process_chunk_raises(kinds: List[int], vals: List[int]) -> bool:
+    """
+    pre: 1 <= len(kinds) <= 3 and len(vals) == len(kinds)
+    pre: all(0 <= k <= 4 for k in kinds)
+    post: _
+    """
+    # map(): a chunk is run by the real _process_chunk in the worker; whatever an item raises (StopIteration
+    # included) must come out of it unchanged so that _process_worker reports it for that chunk's future
+    kinds = [_conc(k, 4) for k in kinds]
+
+    def fn(kind, v):
+        if kind == 1:
+            raise _TaskErr(v)
+        if kind == 2:
+            raise StopIteration(v)
+        if kind == 3:
+            raise KeyboardInterrupt(v)
+        if kind == 4:
+            raise SystemExit(v)
+        return ("val", v)
+    chunk = tuple((k, v) for k, v in zip(kinds, vals))
+    first_bad = next((i for i, k in enumerate(kinds) if k), None)
+    try:
+        out = pe._process_chunk(fn, chunk)
+    except BaseException as e:  # noqa: harness inspects which exception escaped
+        if first_bad is None:
+            raise
+        want = {1: _TaskErr, 2: StopIteration, 3: KeyboardInterrupt, 4: SystemExit}[kinds[first_bad]]
+        if type(e) is not want:
+            raise
+        return e.args == (vals[first_bad],)
+    return first_bad is None and out == [("val", v) for v in vals]
